@@ -247,6 +247,13 @@ void runFpProbe(const Opts& o, long idx, CaseLog& log) {
     char fp[700]; snprintf(fp, sizeof fp, "%s/fp_%ld.c3d", o.out.c_str(), idx);
     { Outcome oc; VF_TRY(oc, c.write(fp)); tr << " save:" << oc.cls; if (!oc.threw) { tr << " bytes=" << std::hex << fnv(readFileBytes(fp)) << std::dec;
         Outcome lo; std::unique_ptr<ezc3d::c3d> l; VF_TRY(lo, l.reset(new ezc3d::c3d(fp))); tr << " load:" << lo.cls; if (l) tr << " lsub=" << l->header().nbAnalogByFrame() << " snap=" << std::hex << hashSnap(take(*l)) << std::dec; } }
+    { // the scalar and vector overloads of Parameter::set with NaN / denormal / extreme patterns: returned bits and saved bytes
+        static const uint32_t sp[] = {0x7fa00000u, 0x7fa00001u, 0xffa00001u, 0x7f800001u, 0x7fc00000u, 0xffc00001u, 0x00000001u, 0x807fffffu, 0x80000000u, 0x7f7fffffu, 0x00800000u, 0x7fffffffu};
+        uint32_t b = sp[idx % (sizeof sp / sizeof sp[0])]; float fv = bitsf(b);
+        ezc3d::c3d c2; Param s1("SCALARF"); s1.set(fv); Param s2("SCALARD"); s2.set(static_cast<double>(fv)); Param s3("VECTORF"); s3.set(std::vector<float>(2, fv));
+        tr << " set(float)=" << std::hex << fbits(s1.valuesAsFloat()[0]) << " set(double)=" << fbits(s2.valuesAsFloat()[0]) << " set(vector)=" << fbits(s3.valuesAsFloat()[0]) << std::dec;
+        c2.parameter("FP", s1); c2.parameter("FP", s2); c2.parameter("FP", s3);
+        snprintf(fp, sizeof fp, "%s/fpp_%ld.c3d", o.out.c_str(), idx); Outcome oc; VF_TRY(oc, c2.write(fp)); if (!oc.threw) tr << " pbytes=" << std::hex << fnv(readFileBytes(fp)) << std::dec; unlink(fp); }
     Outcome none; log.ev("fpprobe", tr.str(), none);
     log.line("RES %ld %08x x%d %s", idx, pb, k, tr.str().c_str());
     unlink(fp);
